@@ -238,6 +238,21 @@ func (x *FnExec) applySpec(fr *frame, n *node, in ssa.Instruction, spec *FuncSpe
 			x.heapHavoc(st, h)
 		}
 	}
+	// preserved heaps: pre-existing objects unchanged; allocation only grows
+	for _, h := range x.preservedHeaps(spec, callee) {
+		if ws[h] {
+			if g := x.preserveFact(pre, st, h); g != "" {
+				x.q.assert(g)
+			}
+		}
+	}
+	if len(spec.Preserves) > 0 {
+		// the callee may allocate: alloc grows monotonically
+		al0 := x.heapGet(pre, "$alloc", "(Array Ref Bool)")
+		x.heapHavoc(st, "$alloc")
+		al1 := x.heapGet(st, "$alloc", "(Array Ref Bool)")
+		x.q.assert(fmt.Sprintf("(forall ((|r?al| Ref)) (=> (select %s |r?al|) (select %s |r?al|)))", al0, al1))
+	}
 	// results
 	res := x.havocVal(hint, resT, reach)
 	x.assumeResultAllocated(st, reach, res)
@@ -415,6 +430,21 @@ func (x *FnExec) builtin(fr *frame, n *node, in ssa.Instruction, b *ssa.Builtin,
 		cnt := x.q.define(hint+"_n", x.q.intSort(), ite(x.cmp("<=", "(s_len "+dst.S+")", slen, I), "(s_len "+dst.S+")", slen))
 		narr := x.q.freshConst(hint+"_arr", fmt.Sprintf("(Array %s %s)", x.q.intSort(), x.q.sortOf(dt.Elem())))
 		oldArr := sel(h, "(s_arr "+dst.S+")")
+		if x.mode == ModeBV && !isString(c.Args[1].Type()) {
+			// quantifier-free expansion for up to 32 elements (longer copies: content arbitrary)
+			const K = 32
+			chain := oldArr
+			srcArr := sel(h, "(s_arr "+src.S+")")
+			for j := 0; j < K; j++ {
+				pos := x.arith("+", "(s_off "+dst.S+")", x.ilit(int64(j)), I)
+				el := sel(srcArr, x.arith("+", "(s_off "+src.S+")", x.ilit(int64(j)), I))
+				chain = x.q.define(hint+"_cp", fmt.Sprintf("(Array %s %s)", x.q.intSort(), x.q.sortOf(dt.Elem())), sto(chain, pos, ite(x.cmp("<", x.ilit(int64(j)), cnt, I), el, sel(oldArr, pos))))
+			}
+			x.q.assert(implies(x.cmp("<=", cnt, x.ilit(K), I), eq(narr, chain)))
+			x.q.note("copy() in bit-vector mode: contents modelled for up to 32 elements")
+			x.heapSet(st, hn, hs, ite(eq("(s_arr "+dst.S+")", "nil"), h, sto(h, "(s_arr "+dst.S+")", narr)))
+			return Val{S: cnt, T: I}, nil
+		}
 		qi := "|i?cp|"
 		inRange := and(x.cmp(">=", qi, "(s_off "+dst.S+")", I), x.cmp("<", qi, x.arith("+", "(s_off "+dst.S+")", cnt, I), I))
 		var srcElem string
@@ -526,7 +556,27 @@ func (x *FnExec) appendOp(fr *frame, n *node, in ssa.Instruction, c *ssa.CallCom
 		out := fmt.Sprintf("(mkslice %s %s %s %s)", target, base, newLen, ite(fits, "(s_cap "+s.S+")", cap2))
 		return Val{S: x.q.define(hint, "Slice", out), T: c.Args[0].Type()}, nil
 	}
-	x.q.assert(fmt.Sprintf("(forall ((%s %s)) (= (select %s %s) (ite %s %s (ite %s %s (select %s %s)))))", qi, x.q.intSort(), narr, qi, inS, srcS, inT, srcT, ite(fits, oldArr, narr), qi))
+	if x.mode == ModeBV && !tIsStr {
+		const K = 32
+		// start from the old array when appending in place, from an arbitrary array otherwise
+		start := x.q.freshConst(hint+"_fresharr", arrSort)
+		chain := x.q.define(hint+"_ap", arrSort, ite(fits, oldArr, start))
+		tArr := sel(h, "(s_arr "+t.S+")")
+		for j := 0; j < K; j++ { // elements of s (only matters for the fresh copy)
+			pos := x.arith("+", base, x.ilit(int64(j)), I)
+			el := sel(oldArr, x.arith("+", "(s_off "+s.S+")", x.ilit(int64(j)), I))
+			chain = x.q.define(hint+"_ap", arrSort, sto(chain, pos, ite(x.cmp("<", x.ilit(int64(j)), "(s_len "+s.S+")", I), el, sel(chain, pos))))
+		}
+		for j := 0; j < K; j++ { // elements of t
+			pos := x.arith("+", x.arith("+", base, "(s_len "+s.S+")", I), x.ilit(int64(j)), I)
+			el := sel(tArr, x.arith("+", "(s_off "+t.S+")", x.ilit(int64(j)), I))
+			chain = x.q.define(hint+"_ap", arrSort, sto(chain, pos, ite(x.cmp("<", x.ilit(int64(j)), tlen, I), el, sel(chain, pos))))
+		}
+		x.q.assert(implies(and(x.cmp("<=", "(s_len "+s.S+")", x.ilit(K), I), x.cmp("<=", tlen, x.ilit(K), I)), eq(narr, chain)))
+		x.q.note("append(s, t...) in bit-vector mode: contents modelled for up to 32+32 elements")
+	} else {
+		x.q.assert(fmt.Sprintf("(forall ((%s %s)) (= (select %s %s) (ite %s %s (ite %s %s (select %s %s)))))", qi, x.q.intSort(), narr, qi, inS, srcS, inT, srcT, ite(fits, oldArr, narr), qi))
+	}
 	target := x.q.define(hint+"_tgt", "Ref", ite(fits, "(s_arr "+s.S+")", r2))
 	x.heapSet(st, hn, hs, sto(h, target, narr))
 	out := fmt.Sprintf("(mkslice %s %s %s %s)", target, base, newLen, ite(fits, "(s_cap "+s.S+")", cap2))
